@@ -5,6 +5,10 @@ import GT.Model.Action
 import GT.Lemmas.Obj
 import GT.Lemmas.Units
 import GT.Model.Charts
+import GT.Model.Affine
+import GT.Model.ObjState
+import Mathlib.Tactic.FinCases
+import Mathlib.Data.Fin.Tuple.Basic
 
 set_option linter.unusedSectionVars false
 set_option linter.unusedSimpArgs false
@@ -317,5 +321,291 @@ theorem normalizeLit_units [DecidableEq K] (rabs : K → K) (v F : ND K) {o : Li
   by_cases h0 : rabs (bil (matAt F n n []) (rowAt v n i) (rowAt v n i)) = 0
   · simp [h0, rowAt]
   · simp [h0, rowAt]
+
+/-! ### half-space charts -/
+
+/-- **lifting** of `poincare_to_halfspace` -/
+theorem p2hND_units (x : ND K) {o : List ℕ} {n : ℕ} (hx : x.shape = o ++ [n + 1]) :
+    ∃ c, p2hND x = .ok c ∧ c.shape = x.shape ∧ ∀ i, Valid o i → rowAt c (n + 1) i = p2h (rowAt x (n + 1) i) := by
+  have hlast : x.shape.getLastD 0 = n + 1 := by rw [hx]; simp
+  have hys := shape_selectLast x hx 0
+  have hvs := shape_sliceLast x hx 1 (n + 1)
+  simp only [Nat.add_sub_cancel] at hvs
+  obtain ⟨x2, hx2, hx2s, hx2wf, hx2g⟩ := normsq_units (x.sliceLast 1 (n + 1)) hvs
+  obtain ⟨den, hden, hdens, hdenwf, hdeng⟩ :=
+    zipBcast_same (fun a t => a + (t - 1) * (t - 1)) x2 (x.selectLast 0) hx2s hys
+  obtain ⟨num, hnum, hnums, hnumwf, hnumg⟩ :=
+    zipBcast_same (fun a t => 1 - a - t * t) x2 (x.selectLast 0) hx2s hys
+  have hvwf : (x.sliceLast 1 (n + 1)).WF := wf_ofFn _ _
+  obtain ⟨A, hA, hAs, _, hAg⟩ := zipBcast_lastcol (· / ·) ((x.sliceLast 1 (n + 1)).map fun t => -2 * t) den
+    (o := o) (m := n) hvs hdens
+  obtain ⟨B, hB, hBs, _, hBg⟩ := zipBcast_same (· / ·) num den hnums hdens
+  refine ⟨((full x.shape (0 : K)).setLastSlice 0 (n + 1 - 1) A).setLastIndex (n + 1 - 1) B,
+    by simp only [p2hND, hlast, hx2, hden, hnum, hA, hB], by simp [setLastIndex, setLastSlice, full], ?_⟩
+  intro i hi
+  have hfull : (full x.shape (0 : K)).shape = o ++ [n + 1] := by simp [full, hx]
+  have hss : ((full x.shape (0 : K)).setLastSlice 0 (n + 1 - 1) A).shape = o ++ [n + 1] := by
+    simp [setLastSlice, full, hx]
+  have hy : (x.selectLast 0).get i = rowAt x (n + 1) i 0 := by
+    rw [get_selectLast x hx 0 hi]; rfl
+  have htail : rowAt (x.sliceLast 1 (n + 1)) n i = Fin.tail (rowAt x (n + 1) i) := by
+    funext k
+    simp only [rowAt, Fin.tail]
+    rw [get_sliceLast x hx 1 (n + 1) hi (by simpa using k.2)]
+    rfl
+  funext j
+  refine Fin.lastCases ?_ (fun k => ?_) j
+  · simp only [rowAt, Fin.val_last, p2h, Fin.snoc_last]
+    rw [get_setLastIndex _ B hss (n + 1 - 1) hi (by omega)]
+    simp only [Nat.add_sub_cancel, if_true]
+    rw [hBg i hi, hnumg i hi, hdeng i hi, hx2g i hi, hy, htail]
+    rfl
+  · simp only [rowAt, Fin.val_castSucc, p2h, Fin.snoc_castSucc]
+    rw [get_setLastIndex _ B hss (n + 1 - 1) hi (by omega)]
+    have hk : ¬ (k.1 = n + 1 - 1) := by have := k.2; omega
+    rw [if_neg hk, get_setLastSlice _ A hfull 0 (n + 1 - 1) hi (by omega)]
+    have hk2 : 0 ≤ k.1 ∧ k.1 < n + 1 - 1 := ⟨Nat.zero_le _, by simpa using k.2⟩
+    rw [if_pos hk2, Nat.sub_zero, hAg i k.1 hi k.2,
+      get_map_wf _ _ hvwf (by rw [hvs]; exact hi.append (by simpa using k.2)),
+      hdeng i hi, hx2g i hi, hy, htail]
+    have : (x.sliceLast 1 (n + 1)).get (i ++ [k.1]) = Fin.tail (rowAt x (n + 1) i) k := by
+      rw [← htail]; rfl
+    rw [this]
+    rfl
+
+/-- **lifting** of `halfspace_to_poincare` -/
+theorem h2pND_units (x : ND K) {o : List ℕ} {n : ℕ} (hx : x.shape = o ++ [n + 1]) :
+    ∃ c, h2pND x = .ok c ∧ c.shape = x.shape ∧ ∀ i, Valid o i → rowAt c (n + 1) i = h2p (rowAt x (n + 1) i) := by
+  have hlast : x.shape.getLastD 0 = n + 1 := by rw [hx]; simp
+  have hys := shape_selectLast x hx (n + 1 - 1)
+  have hvs : (x.sliceLast 0 (n + 1 - 1)).shape = o ++ [n] := by
+    have := shape_sliceLast x hx 0 (n + 1 - 1)
+    simpa using this
+  obtain ⟨x2, hx2, hx2s, hx2wf, hx2g⟩ := normsq_units (x.sliceLast 0 (n + 1 - 1)) hvs
+  obtain ⟨den, hden, hdens, hdenwf, hdeng⟩ :=
+    zipBcast_same (fun a t => a + (t + 1) * (t + 1)) x2 (x.selectLast (n + 1 - 1)) hx2s hys
+  obtain ⟨num, hnum, hnums, hnumwf, hnumg⟩ :=
+    zipBcast_same (fun a t => a + t * t - 1) x2 (x.selectLast (n + 1 - 1)) hx2s hys
+  have hvwf : (x.sliceLast 0 (n + 1 - 1)).WF := wf_ofFn _ _
+  obtain ⟨A, hA, hAs, _, hAg⟩ := zipBcast_lastcol (· / ·) ((x.sliceLast 0 (n + 1 - 1)).map fun t => -2 * t) den
+    (o := o) (m := n) hvs hdens
+  obtain ⟨B, hB, hBs, _, hBg⟩ := zipBcast_same (· / ·) num den hnums hdens
+  refine ⟨((full x.shape (0 : K)).setLastSlice 1 (n + 1) A).setLastIndex 0 B,
+    by simp only [h2pND, hlast, hx2, hden, hnum, hA, hB], by simp [setLastIndex, setLastSlice, full], ?_⟩
+  intro i hi
+  have hfull : (full x.shape (0 : K)).shape = o ++ [n + 1] := by simp [full, hx]
+  have hss : ((full x.shape (0 : K)).setLastSlice 1 (n + 1) A).shape = o ++ [n + 1] := by
+    simp [setLastSlice, full, hx]
+  have hy : (x.selectLast (n + 1 - 1)).get i = rowAt x (n + 1) i (Fin.last n) := by
+    rw [get_selectLast x hx _ hi]; rfl
+  have hinit : rowAt (x.sliceLast 0 (n + 1 - 1)) n i = Fin.init (rowAt x (n + 1) i) := by
+    funext k
+    simp only [rowAt, Fin.init]
+    rw [get_sliceLast x hx 0 (n + 1 - 1) hi (by simpa using k.2)]
+    rfl
+  funext j
+  refine Fin.cases ?_ (fun k => ?_) j
+  · simp only [rowAt, Fin.val_zero, h2p, Fin.cons_zero]
+    rw [get_setLastIndex _ B hss 0 hi (by omega)]
+    simp only [if_true]
+    rw [hBg i hi, hnumg i hi, hdeng i hi, hx2g i hi, hy, hinit]
+    rfl
+  · simp only [rowAt, Fin.val_succ, h2p, Fin.cons_succ]
+    rw [get_setLastIndex _ B hss 0 hi (by have := k.2; omega)]
+    rw [if_neg (by omega), get_setLastSlice _ A hfull 1 (n + 1) hi (by have := k.2; omega)]
+    have hk2 : 1 ≤ k.1 + 1 ∧ k.1 + 1 < n + 1 := ⟨by omega, by have := k.2; omega⟩
+    rw [if_pos hk2, Nat.add_sub_cancel, hAg i k.1 hi k.2,
+      get_map_wf _ _ hvwf (by rw [hvs]; exact hi.append (by simpa using k.2)),
+      hdeng i hi, hx2g i hi, hy, hinit]
+    have : (x.sliceLast 0 (n + 1 - 1)).get (i ++ [k.1]) = Fin.init (rowAt x (n + 1) i) k := by
+      rw [← hinit]; rfl
+    rw [this]
+    rfl
+
+/-! ### affine charts -/
+
+theorem succAbove_val {n : ℕ} (c : Fin (n + 1)) (k : Fin n) :
+    (c.succAbove k).1 = if k.1 < c.1 then k.1 else k.1 + 1 := by
+  unfold Fin.succAbove
+  split <;> rename_i h <;> simp [Fin.lt_def] at h <;> simp [h]
+
+/-- **lifting** of `affine_coords(·, chart_index=c)`: every chart, every composite rank -/
+theorem affineCoordsND_units (x : ND K) {o : List ℕ} {n : ℕ} (hx : x.shape = o ++ [n + 1]) (c : Fin (n + 1)) :
+    ∃ r, affineCoordsND x c.1 = .ok r ∧ r.shape = o ++ [n] ∧
+      ∀ i, Valid o i → rowAt r n i = GT.Affine.affineCoords c (rowAt x (n + 1) i) := by
+  have hxT : x.T.shape = [n + 1] ++ o.reverse := by simp [hx]
+  have hsub := shape_sub x.T (s := [n + 1]) (t := o.reverse) (i := [c.1]) hxT rfl
+  have hb : bcastShape x.T.shape (x.T.sub [c.1]).shape = some ((n + 1) :: o.reverse) := by
+    rw [hxT, hsub]; exact bcastShape_cons_self (n + 1) o.reverse
+  obtain ⟨q, hq, hqs, hqg⟩ := zipBcast_spec (· / ·) x.T (x.T.sub [c.1]) hb
+  have hqT : q.T.shape = o ++ [n + 1] := by simp [hqs]
+  refine ⟨q.T.deleteLast c.1, by simp [affineCoordsND, hq], by simpa using shape_deleteLast q.T hqT c.1, ?_⟩
+  intro i hi
+  funext k
+  simp only [rowAt, GT.Affine.affineCoords]
+  rw [get_deleteLast q.T hqT c.1 hi (by simpa using k.2), ← succAbove_val c k]
+  -- entry (i, j) of q.T
+  have key : ∀ j, j < n + 1 → q.T.get (i ++ [j]) = x.get (i ++ [j]) / x.get (i ++ [c.1]) := by
+    intro j hj
+    have hvr : Valid ((n + 1) :: o.reverse) (j :: i.reverse) := ⟨hj, valid_reverse.2 hi⟩
+    have e : i ++ [j] = (j :: i.reverse).reverse := by simp
+    rw [e, get_T_rev q (by rw [hqs]; exact hvr), hqg _ hvr, hxT, hsub]
+    have e1 : bcIx ([n + 1] ++ o.reverse) (j :: i.reverse) = j :: i.reverse := bcIx_self hvr
+    have e2 : bcIx o.reverse (j :: i.reverse) = i.reverse := by
+      have hl : (j :: i.reverse).length - o.reverse.length = 1 := by simp [hi.length]
+      unfold bcIx
+      rw [hl]
+      simp only [List.drop_succ_cons, List.drop_zero]
+      have := bcIx_self (valid_reverse.2 hi)
+      unfold bcIx at this
+      simpa [hi.length] using this
+    rw [e1, e2, get_sub x.T (i := [c.1]) hxT rfl (valid_reverse.2 hi)]
+    have g1 := get_T_rev x (ix := i ++ [j]) (by rw [hx]; exact hi.append (by simpa using hj))
+    have g2 := get_T_rev x (ix := i ++ [c.1]) (by rw [hx]; exact hi.append (by simpa using c.2))
+    simp only [List.reverse_append, List.reverse_cons, List.reverse_nil, List.nil_append,
+      List.singleton_append] at g1 g2
+    rw [g1]
+    simp only [List.singleton_append] at g2 ⊢
+    rw [g2]
+    simp
+  rw [key _ (c.succAbove k).2]
+
+/-- **lifting** of `projective_coords(·, chart_index=c)` -/
+theorem projCoordsND_units (a : ND K) {o : List ℕ} {n : ℕ} (ha : a.shape = o ++ [n]) (c : Fin (n + 1)) :
+    (projCoordsND a c.1).shape = o ++ [n + 1] ∧
+      ∀ i, Valid o i → rowAt (projCoordsND a c.1) (n + 1) i = GT.Affine.projCoords c (rowAt a n i) := by
+  have hlast : a.shape.getLastD 0 = n := by rw [ha]; simp
+  have hdl : a.shape.dropLast = o := by rw [ha]; simp
+  set idx := (List.range n).map fun j => if j < c.1 then j else j + 1 with hidx
+  have hlen : idx.length = n := by simp [hidx]
+  have hfull : (full (o ++ [n + 1]) (0 : K)).shape = o ++ [n + 1] := rfl
+  have hs1 : ((full (o ++ [n + 1]) (0 : K)).setLastIdx idx a).shape = o ++ [n + 1] := rfl
+  have hnodup : idx.Nodup := by
+    rw [hidx]
+    refine (List.nodup_range).map_on ?_
+    intro x _ y _ h
+    split at h <;> split at h <;> omega
+  have hcnot : c.1 ∉ idx := by
+    rw [hidx]; simp only [List.mem_map, List.mem_range, not_exists, not_and]
+    intro x _; split <;> omega
+  have hunf : projCoordsND a c.1 = ((full (o ++ [n + 1]) (0 : K)).setLastIdx idx a).setLastConst c.1 1 := by
+    unfold projCoordsND
+    simp only [hlast, hdl, hidx]
+  refine ⟨by rw [hunf]; rfl, fun i hi => ?_⟩
+  funext j
+  simp only [rowAt, hunf]
+  rw [get_setLastConst _ hs1 c.1 1 hi j.2]
+  rcases Fin.eq_self_or_eq_succAbove c j with rfl | ⟨k, rfl⟩
+  · simp [GT.Affine.projCoords]
+  · have hne : (c.succAbove k).1 ≠ c.1 := fun h => Fin.succAbove_ne c k (Fin.ext h)
+    rw [if_neg hne, get_setLastIdx _ a hfull idx hi (c.succAbove k).2]
+    have hk : k.1 < idx.length := by rw [hlen]; exact k.2
+    have hget : idx[k.1] = (c.succAbove k).1 := by
+      simp [hidx, succAbove_val]
+    have hio : idx.idxOf (c.succAbove k).1 = k.1 := by
+      rw [← hget]; exact hnodup.idxOf_getElem k.1 hk
+    rw [hio, if_pos hk]
+    simp [GT.Affine.projCoords, rowAt]
+
+/-! ### `Segment._compute_aux_data` -/
+
+theorem get_minkND {n j c : ℕ} (hj : j < n) (hc : c < n) :
+    (minkND n : ND K).get [j, c] = (minkJ n : Matrix (Fin n) (Fin n) K) ⟨j, hj⟩ ⟨c, hc⟩ := by
+  unfold minkND
+  rw [get_ofFn _ _ (by simp [hj, hc])]
+  simp only [List.getD_cons_zero, List.getD_cons_succ, minkJ, Matrix.diagonal_apply, Fin.mk.injEq]
+
+/-- **lifting** of the vectorised `Segment._compute_aux_data`: the `[..., np.newaxis]` broadcasting pairs
+every unit with its own roots — unit `i` of the result is `segmentIdeal` of unit `i`, endpoint order
+included, for every composite rank -/
+theorem segmentAuxND_units (r : K → K) (e : ND K) {o : List ℕ} {n : ℕ} (he : e.shape = o ++ [2, n]) :
+    ∃ c, segmentAuxND r e = .ok c ∧ c.shape = o ++ [2, n] ∧
+      ∀ i, Valid o i → matAt c 2 n i = segmentIdeal (minkJ n) r (matAt e 2 n i) := by
+  have hlast : e.shape.getLastD 0 = n := by rw [he]; simp
+  have hrank : e.rank = o.length + 2 := by simp [ND.rank, he]
+  -- products = e @ J @ e.swapaxes(-1,-2)
+  have hJ : (minkND n : ND K).shape = [] ++ [n, n] := rfl
+  obtain ⟨m1, hm1, hm1s, hm1g⟩ := matmul_spec e (minkND n) he hJ (bcastShape_nil_right o)
+  have heT := shape_swapLast2 e he
+  obtain ⟨pr, hpr, hprs, hprg⟩ := matmul_spec m1 (e.swapaxes (e.rank - 1) (e.rank - 2)) hm1s heT (bcastShape_self o)
+  -- Gram entries
+  have hgram : ∀ i, Valid o i → ∀ (p q : ℕ) (hp : p < 2) (hq : q < 2), pr.get (i ++ [p, q]) =
+      bil (minkJ n) (matAt e 2 n i ⟨p, hp⟩) (matAt e 2 n i ⟨q, hq⟩) := by
+    intro i hi p q hp hq
+    rw [hprg i p q hi hp hq, sum_map_range, bil, Matrix.dotProduct_mulVec]
+    simp only [dotProduct, Matrix.vecMul, bcIx_self hi]
+    apply Finset.sum_congr rfl
+    intro cc _
+    rw [hm1g i p cc.1 hi hp cc.2, sum_map_range, get_swapLast2 e he hi cc.2 hq]
+    simp only [bcIx_self hi, bcIx_nil, List.nil_append, matAt]
+    congr 1
+    apply Finset.sum_congr rfl
+    intro j _
+    rw [get_minkND j.2 cc.2]
+  obtain ⟨h11s, h11g⟩ := entryLast2_spec pr hprs (i := 0) (j := 0) (by omega) (by omega)
+  obtain ⟨h22s, h22g⟩ := entryLast2_spec pr hprs (i := 1) (j := 1) (by omega) (by omega)
+  obtain ⟨h12s, h12g⟩ := entryLast2_spec pr hprs (i := 0) (j := 1) (by omega) (by omega)
+  obtain ⟨t, ht, hts, _, htg⟩ := zipBcast_same (fun x y => x - 2 * y) _ _ h11s h12s
+  obtain ⟨a, ha, has, _, hag⟩ := zipBcast_same (· + ·) t _ hts h22s
+  obtain ⟨b, hb, hbs, _, hbg⟩ := zipBcast_same (fun x y => 2 * x - 2 * y) _ _ h12s h22s
+  obtain ⟨ac, hac, hacs, _, hacg⟩ := zipBcast_same (fun x y => 4 * x * y) a _ has h22s
+  obtain ⟨disc, hdisc, hdiscs, _, hdiscg⟩ := zipBcast_same (fun x y => x * x - y) b ac hbs hacs
+  obtain ⟨num1, hnum1, hnum1s, _, hnum1g⟩ := zipBcast_same (fun x d => -x + r d) b disc hbs hdiscs
+  obtain ⟨mu1, hmu1, hmu1s, _, hmu1g⟩ := zipBcast_same (fun p x => p / (2 * x)) num1 a hnum1s has
+  obtain ⟨num2, hnum2, hnum2s, _, hnum2g⟩ := zipBcast_same (fun x d => -x - r d) b disc hbs hdiscs
+  obtain ⟨mu2, hmu2, hmu2s, _, hmu2g⟩ := zipBcast_same (fun p x => p / (2 * x)) num2 a hnum2s has
+  have he0s := shape_selectRow e he 0
+  have he1s := shape_selectRow e he 1
+  obtain ⟨p10, hp10, hp10s, _, hp10g⟩ := zipBcast_lastcol (fun x m => m * x) (e.selectAxis o.length 0) mu1 he0s hmu1s
+  obtain ⟨p11, hp11, hp11s, _, hp11g⟩ := zipBcast_lastcol (fun x m => (1 - m) * x) (e.selectAxis o.length 1) mu1 he1s hmu1s
+  obtain ⟨n1, hn1, hn1s, _, hn1g⟩ := zipBcast_same (· + ·) p10 p11 hp10s hp11s
+  obtain ⟨p20, hp20, hp20s, _, hp20g⟩ := zipBcast_lastcol (fun x m => m * x) (e.selectAxis o.length 0) mu2 he0s hmu2s
+  obtain ⟨p21, hp21, hp21s, _, hp21g⟩ := zipBcast_lastcol (fun x m => (1 - m) * x) (e.selectAxis o.length 1) mu2 he1s hmu2s
+  obtain ⟨n2, hn2, hn2s, _, hn2g⟩ := zipBcast_same (· + ·) p20 p21 hp20s hp21s
+  obtain ⟨c, hc, hcs, hcg⟩ := stackRows2_spec n1 n2 hn1s hn2s
+  have hol : e.rank - 2 = o.length := by rw [hrank]; rfl
+  simp only [hol] at hpr
+  refine ⟨c, ?_, hcs, ?_⟩
+  · unfold segmentAuxND
+    simp only [hlast, hol, bind, Except.bind, hm1, hpr, ht, ha, hb, hac, hdisc, hnum1, hmu1, hnum2, hmu2,
+      hp10, hp11, hn1, hp20, hp21, hn2, hc]
+  · intro i hi
+    -- the scalars of unit i
+    set X := matAt e 2 n i with hX
+    have g11 := h11g i hi
+    have g22 := h22g i hi
+    have g12 := h12g i hi
+    simp only [matAt] at g11 g22 g12
+    have hG := hgram i hi
+    have va : a.get i = (segQuad (minkJ n) X).1 := by
+      rw [hag i hi, htg i hi, g11, g22, g12, hG 0 0 (by omega) (by omega), hG 1 1 (by omega) (by omega),
+        hG 0 1 (by omega) (by omega)]; rfl
+    have vb : b.get i = (segQuad (minkJ n) X).2.1 := by
+      rw [hbg i hi, g22, g12, hG 1 1 (by omega) (by omega), hG 0 1 (by omega) (by omega)]; rfl
+    have vc : ((pr.selectLast 1).selectLast 1).get i = (segQuad (minkJ n) X).2.2 := by
+      rw [g22, hG 1 1 (by omega) (by omega)]; rfl
+    have vdisc : disc.get i = (segQuad (minkJ n) X).2.1 * (segQuad (minkJ n) X).2.1 -
+        4 * (segQuad (minkJ n) X).1 * (segQuad (minkJ n) X).2.2 := by
+      rw [hdiscg i hi, hacg i hi, vb, va, vc]
+    have vmu1 : mu1.get i = (-(segQuad (minkJ n) X).2.1 + r (disc.get i)) / (2 * (segQuad (minkJ n) X).1) := by
+      rw [hmu1g i hi, hnum1g i hi, vb, va]
+    have vmu2 : mu2.get i = (-(segQuad (minkJ n) X).2.1 - r (disc.get i)) / (2 * (segQuad (minkJ n) X).1) := by
+      rw [hmu2g i hi, hnum2g i hi, vb, va]
+    funext e' cc
+    have hrow0 : ∀ k (hk : k < n), (e.selectAxis o.length 0).get (i ++ [k]) = X 0 ⟨k, hk⟩ := by
+      intro k hk; rw [get_selectRow e he 0 hi hk]; rfl
+    have hrow1 : ∀ k (hk : k < n), (e.selectAxis o.length 1).get (i ++ [k]) = X 1 ⟨k, hk⟩ := by
+      intro k hk; rw [get_selectRow e he 1 hi hk]; rfl
+    simp only [matAt]
+    rw [hcg i e'.1 cc.1 hi e'.2 cc.2]
+    fin_cases e'
+    · simp only [Fin.zero_eta, Fin.val_zero, List.getD_cons_zero]
+      rw [hn1g _ (hi.append (by simpa using cc.2)), hp10g i cc.1 hi cc.2, hp11g i cc.1 hi cc.2,
+        hrow0 cc.1 cc.2, hrow1 cc.1 cc.2, vmu1, vdisc]
+      simp [segmentIdeal, segMix]
+    · simp only [Fin.mk_one, Fin.val_one, List.getD_cons_succ, List.getD_cons_zero]
+      rw [hn2g _ (hi.append (by simpa using cc.2)), hp20g i cc.1 hi cc.2, hp21g i cc.1 hi cc.2,
+        hrow0 cc.1 cc.2, hrow1 cc.1 cc.2, vmu2, vdisc]
+      simp [segmentIdeal, segMix]
 
 end GT.Act
